@@ -1,6 +1,7 @@
 package main
 
 import (
+	"time"
 	"reflect"
 	"fmt"
 	"math/rand"
@@ -222,9 +223,103 @@ func init() {
 	gens["c01"] = genC01
 }
 
+// meaningfulPackets: packets as the protocol means them (the codec treats every option as bytes and every message the
+// same - an encoder that starts to look at what it carries must still be the identity):
+//   - every message type x both opcodes, with the options such messages carry (server identifier, lease time, mask,
+//     routers, TFTP server name and boot file name as options 66 / 67, parameter request list ...), with the header's
+//     sname / file fields empty or in use;
+//   - options whose value has an inner structure (relay agent information, vendor-specific, classless routes, user
+//     class, vendor-identifying class) longer than one instance holds, with inner items of 0, 1, 253, 254 and 255 octets
+//     at every position relative to the 255-octet instance boundary;
+//   - empty options next to options large enough to push the packet beyond the 300-octet minimum.
+func meaningfulPackets(rng *rand.Rand, f func(*dhcpv4.DHCPv4)) {
+	ip := func() net.IP { return net.IPv4(10, byte(rng.Intn(256)), byte(rng.Intn(256)), byte(1+rng.Intn(254))).To4() }
+	for mt := 0; mt <= 8; mt++ {
+		for op := 1; op <= 2; op++ {
+			for names := 0; names < 3; names++ {
+				p, _ := dhcpv4.New()
+				copy(p.TransactionID[:], randBytes(rng, 4))
+				p.OpCode = dhcpv4.OpcodeType(op)
+				if mt > 0 {
+					p.UpdateOption(dhcpv4.OptMessageType(dhcpv4.MessageType(mt)))
+				}
+				p.YourIPAddr, p.ServerIPAddr = ip(), ip()
+				p.UpdateOption(dhcpv4.OptServerIdentifier(ip()))
+				p.UpdateOption(dhcpv4.OptIPAddressLeaseTime(time.Duration(rng.Intn(100000)) * time.Second))
+				p.UpdateOption(dhcpv4.OptSubnetMask(net.CIDRMask(24, 32)))
+				p.UpdateOption(dhcpv4.OptRouter(ip()))
+				p.UpdateOption(dhcpv4.OptParameterRequestList(dhcpv4.OptionRouter, dhcpv4.OptionSubnetMask, dhcpv4.OptionBootfileName, dhcpv4.OptionTFTPServerName))
+				if names != 1 {
+					p.UpdateOption(dhcpv4.OptTFTPServerName("tftp.example"))
+					p.UpdateOption(dhcpv4.OptBootFileName("boot/pxelinux.0"))
+				}
+				if names == 2 {
+					p.ServerHostName, p.BootFileName = "sname.example", "file.efi"
+				}
+				if mt%2 == 0 {
+					p.UpdateOption(dhcpv4.OptGeneric(dhcpv4.GenericOptionCode(80), nil)) // rapid commit: an option without value
+				}
+				f(p)
+			}
+		}
+	}
+	sizes := []int{0, 1, 2, 253, 254, 255, 100}
+	for _, code := range []int{82, 43, 121, 77, 124, 125} {
+		for k := 0; k < 24; k++ {
+			var v []byte
+			for len(v) < 256+rng.Intn(600) {
+				n := sizes[(k+len(v))%len(sizes)]
+				if k%3 == 0 && len(v) == 0 {
+					n = []int{254, 255, 253}[k/3%3] // a full-size item right at the start of the value
+				}
+				switch code {
+				case 124, 125:
+					v = append(v, 0, 0, 0, 9, byte(n))
+				case 121:
+					v = append(v, 32, 10, 0, 0, byte(len(v)), 10, 0, 0, 1)
+					continue
+				case 77:
+					if n == 0 {
+						n = 1
+					}
+					v = append(v, byte(n))
+				default:
+					v = append(v, byte(1+len(v)%9), byte(n))
+				}
+				v = append(v, randBytes(rng, n)...)
+			}
+			p, _ := dhcpv4.New()
+			copy(p.TransactionID[:], randBytes(rng, 4))
+			p.UpdateOption(dhcpv4.OptGeneric(dhcpv4.GenericOptionCode(code), v))
+			if k%2 == 0 {
+				p.UpdateOption(dhcpv4.OptMessageType(dhcpv4.MessageTypeRequest))
+			}
+			f(p)
+		}
+	}
+	for _, big := range []int{0, 40, 60, 61, 200, 255, 256, 600} {
+		for _, nEmpty := range []int{1, 2, 5} {
+			p, _ := dhcpv4.New()
+			copy(p.TransactionID[:], randBytes(rng, 4))
+			for i := 0; i < nEmpty; i++ {
+				if i%2 == 0 {
+					p.UpdateOption(dhcpv4.OptGeneric(dhcpv4.GenericOptionCode(80+i), nil))
+				} else {
+					p.UpdateOption(dhcpv4.OptGeneric(dhcpv4.GenericOptionCode(80+i), []byte{}))
+				}
+			}
+			if big > 0 {
+				p.UpdateOption(dhcpv4.OptGeneric(dhcpv4.GenericOptionCode(224), randBytes(rng, big)))
+			}
+			f(p)
+		}
+	}
+}
+
 // hwAndIdentifier: every hardware type with hardware addresses of 0 / 6 / 16 bytes, with and without a client
 // identifier of the "type, address" shape: neither field is derived from the other, whatever the type
 func hwAndIdentifier(rng *rand.Rand, f func(*dhcpv4.DHCPv4)) {
+	meaningfulPackets(rng, f)
 	for ht := 0; ht < 256; ht++ {
 		for k := 0; k < 4; k++ {
 			p := randPacket4(rng, rng.Intn(2), []int{0, 1, 4})
